@@ -445,10 +445,12 @@ impl<'r, D: Doc> Node<'r, D> {
   pub fn next_all(&self) -> impl Iterator<Item = Node<'r, D>> + '_ {
     // if root is none, use self as fallback to return a type-stable Iterator
     let node = self.parent().unwrap_or_else(|| self.clone());
+    // the root node has no sibling: the cursor below would descend into its children
+    let is_root = self.inner.parent().is_none();
     let mut cursor = node.inner.walk();
     cursor.goto_first_child_for_byte(self.inner.start_byte());
     std::iter::from_fn(move || {
-      if cursor.goto_next_sibling() {
+      if !is_root && cursor.goto_next_sibling() {
         Some(self.root.adopt(cursor.node()))
       } else {
         None
@@ -481,10 +483,12 @@ impl<'r, D: Doc> Node<'r, D> {
   pub fn prev_all(&self) -> impl Iterator<Item = Node<'r, D>> + '_ {
     // if root is none, use self as fallback to return a type-stable Iterator
     let node = self.parent().unwrap_or_else(|| self.clone());
+    // the root node has no sibling: the cursor below would descend into its children
+    let is_root = self.inner.parent().is_none();
     let mut cursor = node.inner.walk();
     cursor.goto_first_child_for_byte(self.inner.start_byte());
     std::iter::from_fn(move || {
-      if cursor.goto_previous_sibling() {
+      if !is_root && cursor.goto_previous_sibling() {
         Some(self.root.adopt(cursor.node()))
       } else {
         None
